@@ -65,9 +65,10 @@ namespace {
 [[nodiscard]] UTF8Iterator ReferenceStart(const std::string_view refStr, const StrPos start) noexcept {
   for (auto iter = UTF8Iterator(refStr, start); iter != UTF8End(refStr); ++iter) {
     if (*iter == '@') {
-      ++iter;
-      if (iter == UTF8End(refStr) || *iter == '{') {
-        return iter;
+      auto next = iter;
+      ++next;
+      if (next == UTF8End(refStr) || *next == '{') {
+        return next;
       }
     }
   }
